@@ -16,7 +16,7 @@ P = 'yui::types::poly::poly::PolyBase::<X, R>::'
 
 
 def sk(t):
-    return re.sub(r'#\d+\.\d+', '', show(t))
+    return re.sub(r'#(?:i\d+:)?\d+\.\d+', '', show(t))
 
 
 def run(facts, rep):
@@ -123,7 +123,7 @@ def check_sub_negates(facts, rep):
     rep.saw(b)
 
     def dk(t):
-        return re.sub(r'&mut _\d+', 'IT', re.sub(r'#\d+\.\d+', '', show(t, -1000)))
+        return re.sub(r'&mut _\d+', 'IT', re.sub(r'#(?:i\d+:)?\d+\.\d+', '', show(t, -1000)))
     n = 0
     probs = []
     for p in SymEx(b, havoc_loops=True, max_paths=5000).run():
